@@ -46,3 +46,143 @@ pub use crate::transform::{
     VerifLowRankMassMatrix as LowRankMassMatrix, VerifMassMatrixAdaptStrategy as MassMatrixAdaptStrategy,
 };
 pub use crate::stepsize::{VerifAcceptanceRateCollector as AcceptanceRateCollector, VerifStrategy as StepSizeStrategy};
+
+/// Schedule points of the parallel sampler: an event log and seeded schedule perturbation.
+pub mod sched {
+    use std::sync::atomic::{AtomicBool, AtomicU64, Ordering};
+    use std::sync::{Condvar, Mutex, MutexGuard};
+
+    #[derive(Clone, Debug)]
+    pub struct Event {
+        pub thread: &'static str,
+        pub point: &'static str,
+        pub chain: u64,
+        pub arg: u64,
+    }
+
+    static LOG: Mutex<Vec<Event>> = Mutex::new(Vec::new());
+    static SEED: AtomicU64 = AtomicU64::new(0);
+    static COUNTER: AtomicU64 = AtomicU64::new(0);
+    static MAX_SLEEP_US: AtomicU64 = AtomicU64::new(200);
+    static PARK: Mutex<Option<(&'static str, u64, u64)>> = Mutex::new(None);
+    static PARKED: AtomicBool = AtomicBool::new(false);
+    static RELEASE: (Mutex<bool>, Condvar) = (Mutex::new(false), Condvar::new());
+
+    pub fn configure(seed: u64, max_sleep_us: u64) {
+        SEED.store(seed, Ordering::SeqCst);
+        MAX_SLEEP_US.store(max_sleep_us, Ordering::SeqCst);
+        COUNTER.store(0, Ordering::SeqCst);
+        PARKED.store(false, Ordering::SeqCst);
+        *PARK.lock().unwrap() = None;
+        *RELEASE.0.lock().unwrap() = false;
+        LOG.lock().unwrap().clear();
+    }
+
+    pub fn take_log() -> Vec<Event> {
+        std::mem::take(&mut *LOG.lock().unwrap())
+    }
+
+    /// The next time `chain` reaches `point` with argument `arg` it blocks until `release`.
+    pub fn park_at(point: &'static str, chain: u64, arg: u64) {
+        *PARK.lock().unwrap() = Some((point, chain, arg));
+    }
+    pub fn is_parked() -> bool {
+        PARKED.load(Ordering::SeqCst)
+    }
+    pub fn release() {
+        *RELEASE.0.lock().unwrap() = true;
+        RELEASE.1.notify_all();
+    }
+
+    fn perturb(point: &'static str, chain: u64, arg: u64) {
+        let hit = {
+            let mut p = PARK.lock().unwrap();
+            if *p == Some((point, chain, arg)) {
+                *p = None;
+                true
+            } else {
+                false
+            }
+        };
+        if hit {
+            PARKED.store(true, Ordering::SeqCst);
+            let mut r = RELEASE.0.lock().unwrap();
+            while !*r {
+                r = RELEASE.1.wait(r).unwrap();
+            }
+        }
+        let seed = SEED.load(Ordering::SeqCst);
+        if seed != 0 {
+            let n = COUNTER.fetch_add(1, Ordering::SeqCst);
+            let mut z = seed ^ n.wrapping_mul(0x9E3779B97F4A7C15);
+            z = (z ^ (z >> 30)).wrapping_mul(0xBF58476D1CE4E5B9);
+            z = (z ^ (z >> 27)).wrapping_mul(0x94D049BB133111EB);
+            z ^= z >> 31;
+            let max = MAX_SLEEP_US.load(Ordering::SeqCst);
+            match z % 4 {
+                0 => {}
+                1 => std::thread::yield_now(),
+                _ => {
+                    if max > 0 {
+                        std::thread::sleep(std::time::Duration::from_micros((z >> 8) % max))
+                    }
+                }
+            }
+        }
+    }
+
+    /// Holds the event-log lock while the instrumented action runs, so that the log order is the
+    /// order of the actions.  Logs `arg = u64::MAX` when dropped without `log`.
+    pub struct Guard {
+        log: Option<MutexGuard<'static, Vec<Event>>>,
+        thread: &'static str,
+        point: &'static str,
+        chain: u64,
+    }
+
+    pub fn guard(thread: &'static str, point: &'static str, chain: u64) -> Guard {
+        perturb(point, chain, 0);
+        Guard {
+            log: Some(LOG.lock().unwrap()),
+            thread,
+            point,
+            chain,
+        }
+    }
+
+    impl Guard {
+        pub fn log(mut self, arg: u64) {
+            if let Some(mut l) = self.log.take() {
+                l.push(Event {
+                    thread: self.thread,
+                    point: self.point,
+                    chain: self.chain,
+                    arg,
+                });
+            }
+        }
+    }
+
+    impl Drop for Guard {
+        fn drop(&mut self) {
+            if let Some(mut l) = self.log.take() {
+                l.push(Event {
+                    thread: self.thread,
+                    point: self.point,
+                    chain: self.chain,
+                    arg: u64::MAX,
+                });
+            }
+        }
+    }
+
+    pub fn point(thread: &'static str, point: &'static str, chain: u64, arg: u64) {
+        perturb(point, chain, arg);
+        LOG.lock().unwrap().push(Event {
+            thread,
+            point,
+            chain,
+            arg,
+        });
+    }
+}
